@@ -121,3 +121,31 @@ def cases(rng, action, n_random, core_reps=1, nths=(0, 1), all_lines=False):
     for _ in range(n_random):
         out.append(make_case(rng, rng.choice(rest), action))
     return out
+
+
+def rmw_cases(rng, nths=(0, 1, 2), reps=1, files=None):
+    """One preemption INSIDE every read-modify-write statement on shared state (``self._count -= 1`` ...): the nth thread to execute
+    the statement is held after it has read the old value and before it stores the new one, until every other thread has run as
+    far as it can.  Where the statement is protected by its lock nothing happens; where it is not, an update is lost."""
+    from . import yieldinj
+    import s3transfer.manager  # noqa: F401
+    import s3transfer.delete  # noqa: F401
+
+    out = []
+    for site in yieldinj.rmw_sites(list(files or FILES)):
+        f, ln, q = site
+        if q.startswith(('ReadFileChunk.', 'DownloadChunkIterator.', 'AggregatedProgressCallback.')):
+            continue  # per-request objects used by one thread at a time
+        for nth in nths:
+            for _ in range(reps):
+                sp = make_case(rng, site, 'pause', nth)
+                sp['yield']['window']['rmw'] = True
+                sp['yield']['window']['name'] = 'rmw:' + sp['yield']['window']['name']
+                sp['yield']['p'] = 0.0
+                sp['config']['max_request_concurrency'] = rng.choice([2, 3, 4])
+                if q.startswith('TransferManager.'):
+                    # the id counter: several user threads submitting at once
+                    sp['transfers'] = [dict(sp['transfers'][0]) for _ in range(3)]
+                    sp['concurrent_submit'] = True
+                out.append(sp)
+    return out
